@@ -90,3 +90,4 @@ fn attack_token() {
 pub fn c13_p2_iccma_attack_token() {
     attack_token();
 }
+
